@@ -90,7 +90,12 @@ def st_scenario(draw):
             ops.append(["filler"])
         subs.append(ops)
     schedule = draw(st.lists(st.integers(0, 5), min_size=0, max_size=60))
-    return {"reqs": reqs, "subs": subs, "schedule": schedule, "purpose_offset": draw(st.sampled_from([0, 1, 1, 7]))}
+    scn = {"reqs": reqs, "subs": subs, "schedule": schedule, "purpose_offset": draw(st.sampled_from([0, 1, 1, 7]))}
+    if draw(st.integers(0, 2)) == 0:
+        # another controller in the same process holds responses it cannot use yet (they arrived before its receive
+        # instruction); they are its own business
+        scn["bystander"] = draw(st.lists(st.tuples(st.sampled_from([1, 1, 2]), st.sampled_from([0, 0, 1]), st.sampled_from(["K", "M"]), st.sampled_from(["recv", "recv", "create"])).map(list), min_size=1, max_size=3))
+    return scn
 
 
 def addr(i, what):
@@ -271,6 +276,26 @@ def run(scn) -> Dict[str, Any]:
                 if not ok:
                     raise Failure(f"wait-resumed-early:{command.mnemonic}", case, f"{command} resumed although its entries are {vals}")
 
+    by = None
+    if scn.get("bystander"):
+        from netqasm.qlink_compat import LinkLayerOKTypeK, LinkLayerOKTypeM, ReturnType
+
+        by = sim.TraceExecutor("other-node")
+        by._node_id_value = 5
+        by.network_stack = net.ScriptedNetworkStack(by)
+        by.init_new_application(0, 4)
+        for j, (remote, sock, tp, role) in enumerate(scn["bystander"]):
+            d = 0 if role == "create" else 1
+            pid = sock + scn.get("purpose_offset", 0)
+            if tp == "K":
+                resp = LinkLayerOKTypeK(type=ReturnType.OK_K, create_id=900 + j, logical_qubit_id=by._get_unused_physical_qubit(), directionality_flag=d, sequence_number=9000 + j,
+                                        purpose_id=pid, remote_node_id=remote, goodness=99, goodness_time=9, bell_state=3)
+            else:
+                resp = LinkLayerOKTypeM(type=ReturnType.OK_M, create_id=900 + j, measurement_outcome=1, measurement_basis=0, directionality_flag=d, sequence_number=9000 + j,
+                                        purpose_id=pid, remote_node_id=remote, goodness=99, bell_state=3)
+            by._handle_epr_response(resp)
+        if len(by._pending_epr_responses) != len(scn["bystander"]):
+            raise Failure("bystander:pending", case, f"a controller without requests holds {len(by._pending_epr_responses)} pending responses after {len(scn['bystander'])} arrived")
     ex = Ex("node")
     ex._node_id_value = 0
     stack = net.ScriptedNetworkStack(ex)
@@ -338,6 +363,12 @@ def run(scn) -> Dict[str, Any]:
     want_alloc = [(scn["reqs"][rec["req"]]["ids"][rec["pair"]], rec["phys"]) for rec in sched.delivered if "phys" in rec]
     if sorted(alloc_log) != sorted(want_alloc):
         raise Failure("qubit-mapping", case, f"keep responses were mapped (virtual, physical) {sorted(alloc_log)}; the reference model expects {sorted(want_alloc)}")
+    if by is not None:
+        if len(by._pending_epr_responses) != len(scn["bystander"]):
+            raise Failure("bystander:pending", case, f"the other controller's {len(scn['bystander'])} waiting responses became {len(by._pending_epr_responses)} while this controller ran")
+        ex_pending = [r for r in ex._pending_epr_responses if r.sequence_number >= 9000]
+        if ex_pending:
+            raise Failure("bystander:leak", case, "responses delivered to another controller object are pending on this one")
     if ex._pending_epr_responses:
         raise Failure("pending-left", case, f"{len(ex._pending_epr_responses)} responses still pending at the end")
     leftover = {k: len(v) for k, v in list(ex._epr_create_requests.items()) + list(ex._epr_recv_requests.items()) if v}
@@ -365,6 +396,8 @@ def shard(ctx: Ctx) -> None:
             labels.append("early-response")
         if info["max_outstanding"] >= 2:
             labels.append("outstanding>=2")
+        if scn.get("bystander"):
+            labels.append("second-controller-with-waiting-responses")
         if any(r["reuse"] for r in scn["reqs"]):
             labels.append("virtual-id-reuse")
         keys = [(r["remote"], r["sock"], r["role"]) for r in scn["reqs"]]
